@@ -879,6 +879,15 @@ func init() {
 	E("sort.Ints", sortBasic)
 	E("sort.Float64s", sortBasic)
 
+	// ---- cron / jobrunner registration: recorded, never fired (jobs are run by harnesses)
+	E("(*github.com/robfig/cron/v3.Cron).Schedule", func(fr *frame, args []value) value {
+		fr.i.path.env.cronEntries++
+		return fr.i.path.env.cronEntries
+	})
+	E("(*github.com/robfig/cron/v3.Cron).Remove", func(fr *frame, args []value) value { return nil })
+	E("github.com/bamzi/jobrunner.New", func(fr *frame, args []value) value { return box(args[0]) })
+	E("github.com/bamzi/jobrunner.Remove", func(fr *frame, args []value) value { return nil })
+
 	// ---- runtime
 	E("runtime.Caller", func(fr *frame, args []value) value { return tuple{uintptr(0), "", 0, false} })
 	E("runtime.FuncForPC", func(fr *frame, args []value) value { return (*value)(nil) })
